@@ -37,7 +37,7 @@ func brandIn(h []byte, off int, set ...string) bool {
 	return false
 }
 
-var heifBrands = []string{"heic", "heix", "heim", "heis", "hevc", "hevx", "hevm", "hevs", "mif1", "msf1"}
+var heicBrands = []string{"heic", "heix", "heim", "heis", "hevc", "hevx", "hevm", "hevs"}
 
 func tiffSig(h []byte) bool { return at(h, 0, "II*\x00") || at(h, 0, "MM\x00*") }
 
@@ -59,7 +59,9 @@ var sigTable = []sigFmt{
 		return isFtypStd(h) && (at(h, 8, "avif") || (at(h, 8, "mif1") && at(h, 20, "avif")))
 	}},
 	{"heif", imagetype.ImageHEIF, func(h []byte) bool {
-		return isFtyp(h) && (brandIn(h, 8, heifBrands...) || brandIn(h, 16, heifBrands...) || brandIn(h, 20, heifBrands...))
+		// a HEVC-image brand as major brand or in one of the two compatible-brand slots the header
+		// holds; the generic brands mif1 / msf1 (which AVIF files carry too) are no evidence alone
+		return isFtyp(h) && (brandIn(h, 8, heicBrands...) || brandIn(h, 16, heicBrands...) || brandIn(h, 20, heicBrands...))
 	}, func(h []byte) bool {
 		return isFtypStd(h) && (at(h, 8, "heic") || at(h, 8, "heix") || (at(h, 8, "mif1") && (at(h, 16, "heic") || at(h, 20, "heic"))) || (at(h, 8, "msf1") && at(h, 20, "hevc")))
 	}},
@@ -122,7 +124,7 @@ type C09 struct{}
 func (e *C09) ID() string    { return "C09" }
 func (e *C09) Level() string { return "exploration" }
 func (e *C09) Rule() string {
-	return "section A (exhaustive): every single-byte perturbation (24 positions x 256 values) of each of the 31 canonical headers; section B: every canonical header followed by random suffixes of length 0..8 KiB and every truncation to 0..23 bytes; section C: seeded random 24-byte strings and two-byte perturbations. Every stream goes through Buf(b), Buf(b[:24]), Scan, ScanBuf and ReadAt (also over an io.ReaderAt that reports io.EOF together with the last bytes), and again through Scan and ScanBuf over readers that deliver it one byte at a time, in uneven short reads, and with the last bytes together with io.EOF, and through Scan on seekable / ReadAt-capable readers that were already read from; suffixes include runs of the tokens the predicates look for (brands, magic numbers) behind headers whose own slots were blanked. Oracle: all five agree on the type and on the error class; bytes beyond 24 do not matter; ScanBuf leaves the whole stream readable; fewer than 24 bytes gives an error and no type; ErrImageTypeNotFound exactly when the type is unknown; a reported type F requires F's signature per the harness's independent table (liberal form); a header carrying exactly one documented standard signature (strict form, with the precedences CR2 and CRW over TIFF (more specific over generic), major brand among ftyp formats) must be reported as that format; where two signatures match without a documented precedence either is accepted. Non-trivial: the header is within two bytes of a canonical header; distinct = (nearest canonical header, position, result)."
+	return "section A (exhaustive): every single-byte perturbation (24 positions x 256 values) of each of the 31 canonical headers; section B: every canonical header behind short prefixes (byte order marks, blanks, zeros: a signature is where the format puts it), ftyp headers with brand tokens at offsets that are not brand slots, every canonical header followed by random suffixes of length 0..8 KiB and every truncation to 0..23 bytes; section C: seeded random 24-byte strings and two-byte perturbations. Every stream goes through Buf(b), Buf(b[:24]), Scan, ScanBuf and ReadAt (also over an io.ReaderAt that reports io.EOF together with the last bytes), and again through Scan and ScanBuf over readers that deliver it one byte at a time, in uneven short reads, and with the last bytes together with io.EOF, and through Scan on seekable / ReadAt-capable readers that were already read from; suffixes include runs of the tokens the predicates look for (brands, magic numbers) behind headers whose own slots were blanked. Oracle: all five agree on the type and on the error class; bytes beyond 24 do not matter; ScanBuf leaves the whole stream readable; fewer than 24 bytes gives an error and no type; ErrImageTypeNotFound exactly when the type is unknown; a reported type F requires F's signature per the harness's independent table (liberal form); a header carrying exactly one documented standard signature (strict form, with the precedences CR2 and CRW over TIFF (more specific over generic), major brand among ftyp formats) must be reported as that format; where two signatures match without a documented precedence either is accepted. Non-trivial: the header is within two bytes of a canonical header; distinct = (nearest canonical header, position, result)."
 }
 func (e *C09) Assumptions() []string {
 	return []string{"the signature table is the harness's own, written from the format definitions cited in the package comments; JPEG 2000 is reported as image/jpeg (pinned by the existing test suite)"}
@@ -329,6 +331,35 @@ func (e *C09) Run(c *core.Ctx, idx int) {
 			t, _ := sniffAll(c, b)
 			if t != t0 {
 				c.Rec.Violation("sniff:suffix", fmt.Sprintf("%s header: type depends on bytes after the first 24 (%v vs %v, suffix %d bytes)", ch.name, t, t0, n), map[string]any{"header_hex": fmt.Sprintf("%x", ch.h), "suffix_len": n})
+			}
+		}
+		// the signature is where the format puts it, not a few bytes further on: the canonical
+		// header behind a byte order mark, blanks, zeros or other short prefixes (the sniffers must
+		// agree, and the reported type needs its signature at its place per the table)
+		for _, pre := range []string{"\xef\xbb\xbf", "\xfe\xff", "\xff\xfe", "\x00", " ", "\n", "\x00\x00\x00", "\xff", "\r\n\r\n"} {
+			b := append([]byte(pre), ch.h...)
+			for _, k := range []int{len(b), 24} {
+				t, _ := sniffAll(c, append([]byte(nil), b[:k]...)) // exact capacity: no bytes behind the slice
+				checkSignature(c, b[:k], t)
+			}
+		}
+		if string(ch.h[4:8]) == "ftyp" {
+			// brand tokens at offsets that are not brand slots (the letters straddle two brands)
+			for _, tok := range []string{"heic", "avif", "hevc", "heix", "crx "} {
+				for off := 13; off <= 23; off++ {
+					if off%4 == 0 {
+						continue
+					}
+					h := append([]byte(nil), ch.h...)
+					copy(h[8:12], r.PickStr("mif1", "msf1", "isom"))
+					for i := 12; i < 24; i++ {
+						h[i] = byte(r.Pick('M', 'X', 0, ' '))
+					}
+					b := append(h, "XXXXXXXX"...)
+					copy(b[off:], tok)
+					t, _ := sniffAll(c, b)
+					checkSignature(c, b, t)
+				}
 			}
 		}
 		// suffixes made of the tokens the predicates look for (brands, magic numbers), 4-byte
